@@ -6,6 +6,7 @@ package fiber
 
 import (
 	"sort"
+	"strings"
 	"sync"
 	"sync/atomic"
 
@@ -20,6 +21,8 @@ type mountFields struct {
 	mountPath string
 	// Ordered keys of apps (sorted by key length for Render)
 	appListKeys []string
+	// Parsed keys of appList that are route patterns (parameters, wildcards, escaped characters)
+	appListParsers map[string]*routeParser
 	// check added routes of sub-apps
 	subAppsRoutesAdded sync.Once
 	// check mounted sub-apps
@@ -126,13 +129,41 @@ func (app *App) mountStartupProcess() {
 
 // generateAppListKeys generates app list keys for Render, should work after appendSubAppLists
 func (app *App) generateAppListKeys() {
+	app.mountFields.appListParsers = make(map[string]*routeParser)
 	for key := range app.mountFields.appList {
 		app.mountFields.appListKeys = append(app.mountFields.appListKeys, key)
+		// A prefix that is a route pattern is parsed the way register parses the route of the
+		// mount, so that the error handler selection can read it as the router does.
+		if strings.ContainsAny(key, ":*+\\") {
+			pattern := key
+			if pattern[0] != '/' {
+				pattern = "/" + pattern
+			}
+			pretty := pattern
+			if !app.config.CaseSensitive {
+				pretty = utils.ToLower(pattern)
+			}
+			parser := parseRouteWritten(pretty, pattern, app.customConstraints...)
+			app.mountFields.appListParsers[key] = &parser
+		}
 	}
 
 	sort.Slice(app.mountFields.appListKeys, func(i, j int) bool {
 		return len(app.mountFields.appListKeys[i]) < len(app.mountFields.appListKeys[j])
 	})
+}
+
+// mountPrefixLen returns the length of the shortest leading part of the path that the parsed mount
+// prefix matches and that ends where a path segment ends, or -1 if the path is not inside the mount.
+func (parser *routeParser) mountPrefixLen(detectionPath, path string) int {
+	var params [maxParams]string
+	for cut := 1; cut <= len(detectionPath); cut++ {
+		if (cut == len(detectionPath) || detectionPath[cut] == '/') &&
+			parser.getMatch(detectionPath[:cut], path[:cut], &params, false) {
+			return cut
+		}
+	}
+	return -1
 }
 
 // appendSubAppLists supports nested for sub apps
